@@ -241,6 +241,8 @@ def observable(case):
 
 
 def _close(obs, val):
+    if val.kind == UNKNOWN:
+        return True
     if isinstance(obs, float):          # nan / inf
         return False
     if val.kind == EXACT:
